@@ -167,6 +167,8 @@ def oracle_case(cl, co):
 
 def run(tier, seed, replay=None):
     rep = vlib.Report(PROP, tier, seed)
+    import os
+    os.environ["VERIF_TIER_NOW"] = tier
     rep.assumptions = ["relations are requested at root level (documented precondition: slack creation asserts root_level())",
                        "the cache keys are the printed strings of the C++ (modelled as the same strings)"] 
     vlib.proof_part(rep, PROP, thorough_modules=["OratioProofs.Properties.C11"])
